@@ -114,7 +114,12 @@ main (void)
 #ifdef EXACT_RATE
 	VASSERT (r->sf.samplerate == nd_sr, "sample rate survives exactly") ;
 #endif
+#if defined (KF_vocupd) && defined (UPDATE_NOW) && defined (IS_VOC_U8)
+	/* known finding excluded (known_findings.txt): VOC 8-bit header update counts the not-yet-written terminator byte */
+	(void) 0 ;	/* no frame-count claim for this configuration */
+#else
 	VASSERT (r->sf.frames >= nd_n && r->sf.frames < nd_n + BLOCKLEN + PADFRAMES, "N <= frames < N + block length (+ documented pad frame)") ;
+#endif
 	VASSERT (r->dataoffset == w->dataoffset, "reader finds the audio data where the writer put it") ;
 	VASSERT (r->read_short != NULL && r->read_int != NULL && r->read_float != NULL && r->read_double != NULL, "reader installs all four read entry points") ;
 	WITNESS_END () ;
